@@ -152,6 +152,9 @@ func (fr *frame) runDefer(d *deferred) {
 			if pe, isEnd := r.(pathEnd); isEnd {
 				panic(pe)
 			}
+			if d, isDie := r.(dieNow); isDie {
+				panic(d)
+			}
 			fr.panicking = true
 			fr.panic = r
 		}
@@ -401,6 +404,11 @@ func (p *Path) callSSA(caller *frame, callpos token.Pos, fn *ssa.Function, args 
 	if fn.Blocks == nil {
 		p.unsupported("no code for function %s (called at %s)", fn, p.pos(callpos))
 	}
+	if env == nil && !p.eng.cfg.NoPureMerge {
+		if r, ok := p.tryPureCall(fn, args); ok {
+			return r
+		}
+	}
 	if fn.TypeParams().Len() > 0 && len(fn.TypeArgs()) == 0 {
 		p.unsupported("uninstantiated generic function %s", fn)
 	}
@@ -453,6 +461,9 @@ func runFrame(fr *frame) {
 		}
 		if sa, ok := r.(specAbort); ok {
 			panic(sa)
+		}
+		if d, ok := r.(dieNow); ok {
+			panic(d)
 		}
 		if _, ok := r.(targetPanic); !ok {
 			// engine bug or Go runtime error inside the engine: convert to an unsupported path end with details
